@@ -124,7 +124,7 @@ def run(ctx, chk):
         except Anchor as ex:
             chk.bad(R2, inst, "not analysable: %s" % ex, WM, key="C07:walk-shape")
             continue
-        want = walkx.expected_module(full)
+        want = walkx.module_expected(ctx, full)
         chk.check(R2, got == want, inst, "renders %s, expected %s (OpConstant through the typed renderer after all of types_global_values was tracked, "
                   "OpExtInst through the named renderer after all imports were tracked)" % (names(got), names(want)), WM, key="C07:walk", sample=names(got) if full else None)
         for ty in (("Function", "Block") if full else ()):
